@@ -83,6 +83,7 @@ func main() {
 		emit(line{Ev: "die", Verdict: verdict, Detail: detail, Case: inflight, Stats: &st})
 	}
 
+	Progress = func(n int) { emit(line{Ev: "progress", PB: n}) }
 	if *gen != 0 {
 		emit(genCase(*gen, profileFor(*profile, 0), *deep, false))
 		return
